@@ -12,21 +12,39 @@ use std::panic::{catch_unwind, AssertUnwindSafe};
 
 const QNAMES: [&str; 4] = ["decode_to_utf8+max_utf8_buffer_length", "decode_to_utf8_without_replacement+max_utf8_buffer_length_without_replacement", "decode_to_utf16+max_utf16_buffer_length", "decode_to_utf16_without_replacement+max_utf16_buffer_length"];
 
-/// feed `prefix` into a fresh decoder following `cuts` (chunk ends), re-pushing unconsumed input; output discarded
-fn bring(enc: &'static Encoding, bom: Bom, prefix: &[u8], cuts: &[usize], ncalls: &mut u64) -> Option<Decoder> {
+/// feed `prefix` into a fresh decoder following `cuts` (chunk ends), re-pushing unconsumed input; output discarded.
+/// A cut value >= STOP_EARLY marks the "stop after one call" schedule: the last chunk is offered in ONE call and the
+/// history stops there even if that call returned Malformed / left input unconsumed (the query then happens in states
+/// such as ConvertingWithPendingBB or gb18030's pending ASCII); the unconsumed tail is returned and must be re-pushed.
+pub const STOP_EARLY: usize = 1 << 20;
+fn bring(enc: &'static Encoding, bom: Bom, prefix: &[u8], cuts: &[usize], ncalls: &mut u64) -> Option<(Decoder, usize)> {
     let mut d = new_decoder(enc, bom);
     let mut big = [0u16; 64];
     let mut prev = 0; let mut guard = 0;
-    let mut ends: Vec<usize> = cuts.to_vec(); ends.push(prefix.len());
-    for e in ends { let mut pos = prev; loop { guard += 1; if guard > 200 { return None; } *ncalls += 1; let (res, read, _) = d.decode_to_utf16_without_replacement(&prefix[pos..e], &mut big, false); pos += read; if res == DecoderResult::InputEmpty { break; } } prev = e; }
-    Some(d)
+    let stop_early = cuts.iter().any(|c| *c >= STOP_EARLY);
+    let mut ends: Vec<usize> = cuts.iter().copied().filter(|c| *c < STOP_EARLY).collect(); ends.push(prefix.len());
+    let nends = ends.len();
+    let mut consumed_to = prefix.len();
+    for (k, e) in ends.into_iter().enumerate() {
+        let mut pos = prev;
+        loop {
+            guard += 1; if guard > 200 { return None; } *ncalls += 1;
+            let (res, read, _) = d.decode_to_utf16_without_replacement(&prefix[pos..e], &mut big, false); pos += read;
+            if res == DecoderResult::InputEmpty { break; }
+            if stop_early && k + 1 == nends { consumed_to = pos; break; }
+        }
+        prev = e;
+    }
+    Some((d, consumed_to))
 }
 
 fn dec_probe(ev: &mut Ev, enc: &'static Encoding, bom: Bom, prefix: &[u8], cuts: &[usize], rest: &[u8], which: usize, last: bool, enumerated: bool) {
     let tr = ev.case();
     let r = catch_unwind(AssertUnwindSafe(|| {
         let mut calls = 0u64;
-        let mut d = match bring(enc, bom, prefix, cuts, &mut calls) { Some(d) => d, None => return (None, calls, String::new(), String::new()) };
+        let (mut d, consumed_to) = match bring(enc, bom, prefix, cuts, &mut calls) { Some(d) => d, None => return (None, calls, String::new(), String::new()) };
+        // unconsumed tail of the prefix (stop-early schedule) is re-pushed in front of the remaining input
+        let joined: Vec<u8>; let rest: &[u8] = if consumed_to < prefix.len() { joined = [&prefix[consumed_to..], rest].concat(); &joined } else { rest };
         let lc = life_cycle(&d);
         let mut pos = 0; let mut guard = 0; let mut full: Option<(usize, usize)> = None; let mut log = String::new();
         loop {
@@ -115,7 +133,7 @@ fn overflow(ev: &mut Ev, ctx: &Ctx) {
         ev.case();
         let res = catch_unwind(AssertUnwindSafe(|| {
             let mut nc = 0u64;
-            let d = match bring(enc, bom, &prefix, &cuts, &mut nc) { Some(d) => d, None => return vec![] };
+            let d = match bring(enc, bom, &prefix, &cuts, &mut nc) { Some(d) => d.0, None => return vec![] };
             let mut bad = vec![];
             for (qn, q) in [("max_utf8_buffer_length", &(|d: &Decoder, k: usize| d.max_utf8_buffer_length(k)) as &dyn Fn(&Decoder, usize) -> Option<usize>), ("max_utf8_buffer_length_without_replacement", &|d: &Decoder, k: usize| d.max_utf8_buffer_length_without_replacement(k)), ("max_utf16_buffer_length", &|d: &Decoder, k: usize| d.max_utf16_buffer_length(k))] {
                 let mut prev: Option<usize> = q(&d, 1 << 20);
@@ -162,8 +180,10 @@ pub fn run(ctx: &Ctx, ev: &mut Ev) {
                 for &bom in [Bom::Off, Bom::Sniff].iter() {
                     // feeding schedules: whole, byte per call, (thorough) every cut set
                     let mut scheds: Vec<Vec<usize>> = vec![vec![], (1..prefix.len()).collect()];
+                    // stop after one call on the whole prefix / on its last byte (query right after a Malformed result)
+                    if !prefix.is_empty() { scheds.push(vec![STOP_EARLY]); if prefix.len() >= 2 { scheds.push(vec![prefix.len() - 1, STOP_EARLY]); let mut v: Vec<usize> = (1..prefix.len()).collect(); v.push(STOP_EARLY); scheds.push(v); } }
                     if th && prefix.len() >= 3 { for mask in 1..(1u32 << (prefix.len() - 1)) - 1 { scheds.push((1..prefix.len()).filter(|i| mask & (1 << (i - 1)) != 0).collect()); } }
-                    if prefix.len() < 2 { scheds.truncate(1); }
+                    if prefix.len() < 2 { scheds.retain(|c| c.is_empty() || c == &vec![STOP_EARLY]); }
                     for cuts in scheds.iter() { for which in 0..4 { for last in [false, true] { for rest in rests.iter() {
                         dec_probe(ev, enc, bom, prefix, cuts, rest, which, last, true);
                     } } } }
@@ -173,7 +193,7 @@ pub fn run(ctx: &Ctx, ev: &mut Ev) {
         // BOM-look-alike prefixes for every encoding (withheld bytes), all three modes
         for &enc in ALL.iter() {
             if !ev.mine() { continue; }
-            for prefix in strings_over(&BOM_ALPHA, 3).iter() { for &bom in BOMS.iter() { for cuts in [vec![], (1..prefix.len()).collect::<Vec<usize>>()] { if cuts.is_empty() && prefix.len() > 1 && tiny { continue; } for which in 0..4 { for last in [false, true] { for rest in [&[][..], &[0x41], &[0xBF], &[0xBB, 0xBF], &[0xFE, 0x41], &[0x80, 0x80]] {
+            for prefix in strings_over(&BOM_ALPHA, 3).iter() { for &bom in BOMS.iter() { for cuts in [vec![], (1..prefix.len()).collect::<Vec<usize>>(), vec![STOP_EARLY], { let mut v: Vec<usize> = (1..prefix.len()).collect(); v.push(STOP_EARLY); v }, vec![2.min(prefix.len()), STOP_EARLY]] { if cuts.is_empty() && prefix.len() > 1 && tiny { continue; } for which in 0..4 { for last in [false, true] { for rest in [&[][..], &[0x41], &[0xBF], &[0xBB, 0xBF], &[0xFE, 0x41], &[0x80, 0x80]] {
                 dec_probe(ev, enc, bom, prefix, &cuts, rest, which, last, true);
             } } } } } }
         }
@@ -185,7 +205,8 @@ pub fn run(ctx: &Ctx, ev: &mut Ev) {
         for _ in 0..n {
             let enc = ALL[r.below(40)]; let alpha = byte_alpha(enc);
             let prefix: Vec<u8> = (0..r.below(7)).map(|_| if r.chance(5) { *r.pick(&BOM_ALPHA) } else { *r.pick(&alpha) }).collect();
-            let cuts: Vec<usize> = match r.below(3) { 0 => vec![], 1 => (1..prefix.len()).collect(), _ => { let mut c: Vec<usize> = (0..r.below(3)).map(|_| r.below(prefix.len() + 1)).collect(); c.sort(); c } };
+            let mut cuts: Vec<usize> = match r.below(3) { 0 => vec![], 1 => (1..prefix.len()).collect(), _ => { let mut c: Vec<usize> = (0..r.below(3)).map(|_| r.below(prefix.len() + 1)).collect(); c.sort(); c } };
+            if r.chance(3) { cuts.push(STOP_EARLY); }
             let rest = crate::hist::random_stream(&mut r, enc, 2); let rest = &rest[..rest.len().min(64)];
             dec_probe(ev, enc, BOMS[r.below(3)], &prefix, &cuts, rest, r.below(4), r.chance(2), false);
         }
